@@ -6,6 +6,7 @@ CONSTANTS
   EmitStep = TRUE
   Heights = {1, 2}
   Rounds = {0}
+  Stages = {1, 3}
   Facts = {"A"}
   ExSets = {{}, {"n1"}}
   AllowSC = TRUE
@@ -16,6 +17,7 @@ CONSTANTS
   StoreSC = "sf-"
   CleanSC = "sign-"
   CountRule = "sound"
+  EagerCount = FALSE
 VIEW view
 INVARIANTS TypeOK ReadsIsolated KeyMatchesRecord NoAliasing PutOncePerUse PutExactlyOncePerUse
 PROPERTIES CleanReleases NothingPassedAfterClean NotConsulted EmitSound
